@@ -17,9 +17,15 @@ CLAIMS = {
  "C01": claim("Contracts on Loop.schedule (exactly one activation queued for the selected date; usage assertions as call-site "
               "obligations), postpone/suspend (resume in the same step / exactly delay later, private wake-up dead on every exit), "
               "After/Before/Moment/Instant/Eternity/Delay/Time (exact resume date, same step when the date is reached, no normal "
-              "completion path for dates that cannot hold any more), Scope.do date normalisation.",
-              "Not decided: monotonicity of the clock itself (Loop._run_events / WaitQueue not under contract yet: kernel K1/K3 are "
-              "assumed), float rounding, infinite dates, the start date inside the task wrapper.", "5/C01"),
+              "completion path for dates that cannot hold any more), Scope.do date normalisation, the task wrapper's start date. "
+              "Kernel: both wait-queue back ends (heap+dict, SortedDict) are proved to refine one abstract view (FIFO per date, pop = "
+              "complete FIFO of the smallest date; heap order and key/dict coupling as invariants); Loop._run_events is proved "
+              "against that view: the clock never decreases, every queued date lies strictly after the clock between time steps, the "
+              "pending FIFO of a step is drained before the clock moves, and it returns only with nothing queued; Loop.__init__ queues "
+              "the roots at `start` in argument order.",
+              "Assumed: the interface to foreign code (Loop._run_coroutine: activities reach the loop only through Loop.schedule and "
+              "respect its usage assertions), stdlib contracts of heapq / SortedDict.popitem(0), float rounding (reals), infinite dates.",
+              "5/C01"),
  "C03": claim("On every exit path (normal, exception, foreign signal, GeneratorExit) of postpone, suspend, Notification/Condition "
               "awaits, Lock, Queue, Pipe, Scope and the task wrapper every signal the function created is dead; internal assertions "
               "(`task is loop.activity`, `err.subject is self`, Done set once, `child.parent is self`) are proved; signals are "
@@ -49,8 +55,12 @@ CLAIMS = {
               "run(till=...) itself is not under contract.", "5/C07"),
  "C08": claim("Condition.__await__ returns only in a segment in which the condition evaluates true and after at least one suspension; "
               "Condition.__subscribe__ delivers now iff true; invariants 'no waiter parked on a true Flag/InverseFlag/Done'; Flag.set "
-              "puts the new value in force and wakes everybody before it yields.",
-              "Boolean algebra of derived conditions, Tracked comparisons and connective waits are not under contract yet.", "5/C08"),
+              "puts the new value in force and wakes everybody before it yields. Connectives: All/Any.__bool__ are and/or over the "
+              "children's current values; a & b / a | b (Condition, All, Any) build exactly the documented child lists and evaluate to "
+              "and/or of the operands; ~ on Flag/InverseFlag/Done/NotDone/After/Before/Eternity/Instant yields a condition with the "
+              "negated value; await (a & b) / (a | b) suspends at least once and completes only when the connective evaluates true.",
+              "Assumed: contextlib.ExitStack + the subscriptions it holds inside Connective.__await_children__ (interface contract). "
+              "Not under contract: De Morgan inversion of All/Any (comprehension that allocates), Tracked/resource comparisons.", "5/C08"),
  "C09": claim("Every function of Lock under contract: FIFO hand-off, re-entrancy depth arithmetic, `available`, exit routes of "
               "__aenter__ (neither owner nor waiter after any abnormal exit, ownership passed on), invariants (free lock idle, designated "
               "owner has a live wake-up, a live wake-up belongs to the owner, waiters distinct and never the owner) at every yield point.",
@@ -102,9 +112,9 @@ for p in props:
             "technique": "contract-based deductive verification: sidecar contracts on the real functions, VCs generated from /repo's AST by symbolic execution, discharged by z3 (cvc5 / z3-4.8 fallback)",
         })
 NA = {
- "C02": "determinism needs the scans W5/W6 and the WaitQueue refinement K1, which are not built yet; no function-level contract carries it",
+ "C02": "only partly expressible as contracts: FIFO per date and back-end independence are proved (WaitQueue refinement, Loop.schedule, __awake_all__ order) and serve C01; independence of hash seed / memory layout needs whole-program scans for set/WeakSet/id() ordered iteration (Tracked._listeners is such a WeakSet) that this family does not provide",
  "C12": "Resources/Tracked and the exec-generated ResourceLevels operators are not under contract yet",
- "C15": "Loop.run/_run_events/_run_coroutine and StateHandler.assign are not under contract yet; thread isolation rests on threading.local (assumed) and is outside this family",
+ "C15": "Loop._run_events (quiescence, root order via Loop.__init__) is proved and reported under C01; Loop.run/StateHandler.assign (restoring the enclosing simulation), ActivityLeak reporting and usim.run(till=) are not under contract, and thread isolation rests on threading.local, outside this family",
  "C16": "collect/first need `async for` over asyncstdlib.islice (external) and the Scope/Queue contracts composed; not built yet",
  "C18": "the SimPy compatibility layer (usim.py.events/core) is not under contract yet",
  "C19": "the SimPy resources (usim.py.resources) are not under contract yet",
